@@ -618,6 +618,66 @@ fn recover_apply(mani: &mut Manifest, setsum: Setsum) -> (r: Result<(), SError>)
 //@ >>
 //@ end
 
+// opening (LsmTree::open): a manifest that has no 'I' info yet gets the initial transaction I = D = O = 0, which the offline
+// verifier accepts from the zero state and which lists nothing
+#[verifier::external_body]
+fn open_mismatch_error(tree: Setsum, mani: Setsum) -> (r: SError) { unimplemented!() }
+impl Manifest {
+    // `mani.info('I').is_none()`.  ASSUMED: a manifest without an 'I' info has had no transaction applied -- every
+    // transaction the store writes carries one -- so it lists nothing and its recorded output is zero
+    #[verifier::external_body]
+    fn has_no_input_info(&self) -> (r: bool)
+        ensures r ==> self.log().len() == 0 && self.sum() == gzero() && self.o() == gzero(),
+    { unimplemented!() }
+}
+//@ extract lsmtk/src/tree/mod.rs | impl LsmTree :: fn open
+//@ region `if mani.has_no_input_info() {`
+//@ region-sig <<
+fn open_init(mani: &mut Manifest) -> (r: Result<(), SError>)
+//@ >>
+//@ region-tail <<
+    Ok(())
+//@ >>
+//@ rewrite-re X7 `mani\.info\('I'\)\.is_none\(\)` => `mani.has_no_input_info()`
+//@ rewrite-re X7 `(\w+)\.info\('(\w)', &Setsum::default\(\)\.hexdigest\(\)\)\?;` => `\1.info_setsum('\2', Setsum::default())?;`
+//@ pre <<
+        mok(*old(mani)),
+//@ >>
+//@ post <<
+        r is Ok ==> mok(*final(mani)) && (final(mani).log() == old(mani).log() && final(mani).o() == old(mani).o()
+            || final(mani).log() == seq![final(mani).log().last()] && old(mani).log().len() == 0
+                && vok(final(mani).log().last(), gzero()) && final(mani).log().last().adds.len() == 0 && final(mani).log().last().rms.len() == 0
+                && final(mani).o() == gzero()),
+//@ >>
+//@ before `mani.apply(edit)?;` <<
+            proof {
+                assert(gsum(Seq::<G>::empty()) == gzero());
+                axiom_zero(gzero()); axiom_inv(gzero()); lemma_zero_left(gneg(gzero()));
+                assert(old(mani).log().push(edit@) =~= seq![edit@]);
+            }
+//@ >>
+//@ end
+
+// opening (LsmTree::from_manifest): the tree rebuilt from the files the manifest lists is accepted only if the sum of its
+// files' setsums is the manifest's recorded output (the digest strings compared name the setsums)
+//@ extract lsmtk/src/tree/mod.rs | impl LsmTree :: fn from_manifest
+//@ region `let version_setsum = version.compute_setsum();` .. `if `
+//@ region-sig <<
+fn open_check(version: &Version, mani: &Manifest) -> (r: Result<(), SError>)
+//@ >>
+//@ region-tail <<
+    Ok(())
+//@ >>
+//@ rewrite-re X23 `version\.lock\(\)\.unwrap\(\)\.compute_setsum\(\)\.hexdigest\(\)` => `version.compute_setsum()`
+//@ rewrite-re X7 `(?s)mani\s*\.read\(\)\s*\.unwrap\(\)\s*\.info\('(\w)'\)\s*\.map\(\|s\| s\.to_string\(\)\)\s*\.unwrap_or\(Setsum::default\(\)\.hexdigest\(\)\)` => `mani.info_or_default('\1')`
+//@ rewrite-re? X17 `\b(\w+_setsum) != (\w+_setsum)\b` => `!\1.eq(&\2)`
+//@ rewrite-re? X17 `\b(\w+_setsum) == (\w+_setsum)\b` => `\1.eq(&\2)`
+//@ rewrite-re X7 `(?s)return Err\(\s*corruption\("setsum of tree does not match setsum of manifest"\).*?\);` => `return Err(open_mismatch_error(version_setsum, mani_setsum));`
+//@ post <<
+        r is Ok ==> tree_sum(*version) == mani.o(),
+//@ >>
+//@ end
+
 // ---------------------------------------------------------------- the offline verifier: what it accepts
 // verify_one (lsmtk/src/verifier.rs) walks one manifest fragment; Ok means every transaction after the first satisfies
 // vok against the running setsum -- so a fragment in which one transaction's added, removed or discarded data was
@@ -918,6 +978,6 @@ fn moving_compaction_core(tree: &LsmTree, version: &Version, compaction: Compact
 //@ >>
 //@ end
 
-//@ min-verified 17
+//@ min-verified 19
 } // verus!
 fn main() {}
